@@ -22,9 +22,14 @@ pub fn encoder_res(h: &SparseMatrix, msgs: &[Vec<bool>]) -> String {
             let dbg = format!("{:?}", enc);
             let kind = if dbg.contains("Staircase") { "Staircase" } else if dbg.contains("DenseGenerator") { "DenseGenerator" } else { "Unknown" };
             let mut out = vec!["ok".to_string(), kind.to_string()];
-            for m in msgs {
+            for (mi, m) in msgs.iter().enumerate() {
                 let (e2, m2) = (enc.clone(), m.clone());
-                out.push(match guarded(move || e2.encode(&gf2(&m2))) {
+                // `encode` takes any 1-D array view: owned, reversed view of the reversed array (stride -1), every second element (stride 2)
+                out.push(match guarded(move || match mi % 3 {
+                    0 => e2.encode(&gf2(&m2)),
+                    1 => { let rev: Vec<bool> = m2.iter().rev().copied().collect(); let a = gf2(&rev); e2.encode(&a.slice(ndarray::s![..;-1])) }
+                    _ => { let pad: Vec<bool> = m2.iter().flat_map(|&b| [b, !b]).collect(); let a = gf2(&pad); e2.encode(&a.slice(ndarray::s![..;2])) }
+                }) {
                     Ok(cw) => bools(cw.iter().map(|b| b.is_one())),
                     Err(_) => "panic".to_string(),
                 });
@@ -89,6 +94,12 @@ fn gen_h_family(rng: &mut Rng, maxr: usize, maxn: usize) -> (SparseMatrix, &'sta
             let j = rng.below(r);
             let c = k + rng.below(r);
             h.toggle(j, c);
+            // half of the time restore the NUMBER of ones of the parity part (a one moved, not added or removed)
+            if rng.chance(1, 2) {
+                let j2 = rng.below(r);
+                let c2 = k + rng.below(r);
+                if (j2, c2) != (j, c) { h.toggle(j2, c2); }
+            }
             (h, "near-staircase")
         }
         2 | 4 => {
@@ -200,7 +211,20 @@ pub fn run_c02(ctx: &mut Ctx, replay: Option<&[String]>) {
     let mut rng = Rng::new(ctx.seed, 2);
     let (maxr, maxn) = (ctx.scale(12, 60), ctx.scale(24, 90));
     for case in 0..ctx.scale(3000, 40000) {
-        let (h, fam) = if case % 20 == 0 { gen_h(&mut rng, 1, maxn) } else { gen_h(&mut rng, maxr, maxn) };
+        let (h, fam) = if case % 100 == 7 {
+            // a staircase code with very heavy checks (hundreds of systematic bits on one row): parities of long sums
+            let r = rng.range(1, 3);
+            let k = rng.range(250, 700);
+            let mut h = SparseMatrix::new(r, k + r);
+            for j in 0..r {
+                for c in 0..k {
+                    if j == 0 || rng.chance(3, 4) { h.insert(j, c); }
+                }
+                h.insert(j, k + j);
+                if j > 0 { h.insert(j, k + j - 1); }
+            }
+            (h, "staircase-heavy-rows")
+        } else if case % 20 == 0 { gen_h(&mut rng, 1, maxn) } else { gen_h(&mut rng, maxr, maxn) };
         let k = h.num_cols() - h.num_rows();
         let mut msgs: Vec<Vec<bool>> = Vec::new();
         if k <= 3 {
@@ -214,8 +238,9 @@ pub fn run_c02(ctx: &mut Ctx, replay: Option<&[String]>) {
                 }
             }
         } else {
-            for _ in 0..3 {
-                let ma: Vec<bool> = (0..k).map(|_| rng.chance(1, 2)).collect();
+            for t in 0..3 {
+                let dense = k >= 250 && t == 0;
+                let ma: Vec<bool> = (0..k).map(|_| if dense { true } else { rng.chance(1, 2) }).collect();
                 let mb: Vec<bool> = (0..k).map(|_| rng.chance(1, 2)).collect();
                 let mx: Vec<bool> = ma.iter().zip(&mb).map(|(x, y)| x ^ y).collect();
                 msgs.extend([ma, mb, mx]);
